@@ -440,3 +440,104 @@ def quota_corpus(pid):
                                            "exactly the measured cost, every decoding quota in [cost-260, cost) and a coarse sweep below",
                                   "vectors": nvec, "disagreements": len(failures), "labelled": "bounded, NOT proved",
                                   "wall_s": round(time.time() - t0, 1)}]}
+
+
+def history_corpus(pid):
+    """BOUNDED stand-in for the thread-local type memo (types/mod.rs, internal.rs: thread_local!/RefCell, outside both
+    tools): 5 (mutually) recursive / generic derived types are encoded and decoded in every order of up to 3 steps
+    (plus type-derivation-only steps) on a fresh thread; every step must round-trip and produce the same bytes as the
+    same step run alone on a fresh thread."""
+    import itertools
+    t0 = time.time()
+    exe, err = build_replay()
+    if not exe:
+        return {"undecided": [f"bounded stand-in: the real crate does not build: {err}"], "failures": []}
+    kinds = "TKLWVE"
+    alone = {}
+    cmds = [f"h {k}" for k in kinds]
+    perms = ["".join(p) for r in (2, 3) for p in itertools.permutations(kinds, r)]
+    perms += [a + b for a in "yz" for b in kinds] + [a + b + c for a in "yz" for b in "yz" for c in "TK"] + [k + k for k in kinds]
+    cmds += [f"h {p}" for p in perms]
+    p = subprocess.run([exe], input="\n".join(cmds) + "\n", capture_output=True, text=True, timeout=900)
+    outs = [l.strip() for l in p.stdout.splitlines()]
+    failures = []
+
+    def fail(cmd, exp, got):
+        failures.append({
+            "obligation": "bounded-standin::round trip does not depend on what ran before on the thread", "unit": "bounded-standin",
+            "item": "type memo (types/mod.rs, internal.rs)", "fn": "env", "kind": "bounded-standin", "file": "rust/candid/src/types/internal.rs",
+            "line": 0, "source_text": "", "clause": None, "verifier_message": f"`{cmd}`: expected {exp}, got {got[:300]}",
+            "witness": {"confirmed": True, "function": "candid encode/decode of derived recursive types", "input": cmd, "expected": exp,
+                        "got": got[:300], "replay_cmd": f"echo '{cmd}' | {exe}"}})
+
+    for k, o in zip(kinds, outs[:len(kinds)]):
+        if not o.startswith("ok ") or any(x in o for x in ("ERR", "DIFF", "panic")):
+            fail(f"h {k}", "a successful round trip on a fresh thread", o)
+        else:
+            alone[k] = o[3:].split(":", 1)[1]
+    for perm, o in zip(perms, outs[len(kinds):]):
+        if len(failures) >= 3:
+            break
+        if not o.startswith("ok "):
+            fail(f"h {perm}", "round trips", o)
+            continue
+        for step in o[3:].split(" "):
+            k, _, v = step.partition(":")
+            if k in alone and v != alone[k]:
+                fail(f"h {perm}", f"step {k} to behave as on a fresh thread", step)
+                break
+    return {"failures": failures[:3], "undecided": [], "obligations": 0, "discharged": 0, "trusted": [],
+            "cmds": [f"{exe} < history corpus (bounded stand-in)"],
+            "backends": ["BOUNDED stand-in (real crate, orders of earlier calls on one thread; not a proof)"], "samples": [],
+            "bounded_standins": [{"functions": ["types/mod.rs + internal.rs thread-local type memo (env, ID, knot)", "ser.rs IDLBuilder::new env_clear"],
+                                  "bound": "6 value kinds over 5 recursive/generic derived types; all ordered selections of 2 and 3 kinds, "
+                                           "type-derivation-only prefixes, repeated kinds; each on a fresh thread",
+                                  "vectors": len(cmds), "disagreements": len(failures), "labelled": "bounded, NOT proved",
+                                  "wall_s": round(time.time() - t0, 1)}]}
+
+
+def derive_order(pid):
+    """BOUNDED stand-in for candid_derive/src/derive.rs (syn code, outside both tools): for six derived types with raw
+    identifiers, non-ASCII renames and near-colliding names the derived field/variant list must be labelled with the
+    unraw / renamed names and be strictly ascending by the specification's hash of those names."""
+    from witness import hash_ref
+    t0 = time.time()
+    exe, err = build_replay()
+    if not exe:
+        return {"undecided": [f"bounded stand-in: the real crate does not build: {err}"], "failures": []}
+    p = subprocess.run([exe], input="dv\n", capture_output=True, text=True, timeout=120)
+    o = p.stdout.strip()
+    want = [{"type", "name"}, {"fn", "id"}, {"é", "b", "zü"}, {"match", "loop", "plain", "async"}, {"é", "B", "Type", "Zz"}, {"abc", "abc2", "abd"}]
+    failures = []
+
+    def fail(exp, got):
+        failures.append({
+            "obligation": "bounded-standin::derived fields are labelled by name and ordered by the spec hash", "unit": "bounded-standin",
+            "item": "candid_derive", "fn": "derive", "kind": "bounded-standin", "file": "rust/candid_derive/src/derive.rs", "line": 0,
+            "source_text": "", "clause": None, "verifier_message": f"dv: expected {exp}, got {got[:300]}",
+            "witness": {"confirmed": True, "function": "#[derive(CandidType)]", "input": "dv", "expected": exp, "got": got[:300],
+                        "replay_cmd": f"echo dv | {exe}"}})
+
+    if not o.startswith("ok "):
+        fail("six derived types", o)
+    else:
+        for i, (lst, names) in enumerate(zip(o[3:].split(" "), want)):
+            labs = [bytes.fromhex(x[2:]).decode() if x.startswith("n:") else x for x in lst.split(",")]
+            if set(labs) != names:
+                fail(f"type #{i} to have the fields {sorted(names)}", str(labs))
+                continue
+            ids = [hash_ref(n.encode()) for n in labs]
+            if ids != sorted(ids) or len(set(ids)) != len(ids):
+                fail(f"type #{i}: fields strictly ascending by hash", f"{labs} with ids {ids}")
+    return {"failures": failures[:3], "undecided": [], "obligations": 0, "discharged": 0, "trusted": [],
+            "cmds": [f"echo dv | {exe}"], "backends": ["BOUNDED stand-in (real derive macro on six types; not a proof)"], "samples": [],
+            "bounded_standins": [{"functions": ["candid_derive/src/derive.rs fields_from_ast / enum variants: sort by hash, rename, raw identifiers"],
+                                  "bound": "6 derived types: raw identifiers (r#type, r#fn, r#match, r#loop, r#async, r#abc2), non-ASCII renames, enum variants",
+                                  "vectors": 6, "disagreements": len(failures), "labelled": "bounded, NOT proved",
+                                  "wall_s": round(time.time() - t0, 1)}]}
+
+
+if __name__ == "__main__":
+    if "--prebuild" in sys.argv:
+        exe, err = build_replay()
+        print("replay crate:", exe or ("BUILD FAILED: " + str(err)[-300:]))
